@@ -59,20 +59,10 @@ pub fn wellformed(lang_code: &str, texts: &[&str], nan: &[bool], occ: &[Occ], ob
     Ok(interesting)
 }
 
-impl Property for C06 {
-    type Input = Case;
-    fn id(&self) -> &'static str {
-        "C06"
-    }
-    fn rule(&self) -> String {
-        "Generated: (language, text, threshold, hint bytes) from the clean and dirty sentence generators, biased so that ordinal forms, the decimal separator and digit words occur next to each other (the shapes that can produce ill-formed texts), plus arbitrary unicode. For the occurrences reported (a) through the tokenizer+annotation pipeline and (b) on an own-token stream with random separation / not-a-number hints, the validity predicate of the statement is asserted: span inside the stream, non-empty, strictly increasing and disjoint, first and last token are word tokens, no flagged token inside, text matches DIGITS (MARK DIGITS)? MARKER? with the language's decimal mark and ordinal-marker set (or 1/DIGITS for Spanish), value bit-equal to the numeric reading of the text, is_ordinal <=> marker present. Non-trivial = distinct cases with >= 2 occurrences or an occurrence that is ordinal, decimal, has leading zeros or >= 16 digits.".into()
-    }
-    fn assumptions(&self) -> Vec<String> {
-        vec!["the per-language ordinal marker sets are those the library documents/emits today (en st nd rd th ths rds; fr er ère ers ères ème èmes; de '.'; nl e; it º ª; es º ª ᵒˢ ᵃˢ .ᵉʳ; pt º ª ᵒˢ ᵃˢ)".into()]
-    }
-    fn strategy(&self, _tier: Tier) -> BoxedStrategy<Case> {
-        // ordinal + separator + digit shapes: splice a separator / ordinal into a speller phrase
-        let shaped = (lang_strategy(), num_strategy(1_000_000), choices(), num_strategy(1000), 0u8..9, threshold_strategy()).prop_map(|(lang, n, ch, m, shape, th)| {
+/// ordinal / separator / digit / zero shapes spliced from speller phrases (the places where ill-formed or
+/// inconsistent occurrences can come from); shared with C07
+pub fn shaped_texts() -> BoxedStrategy<(String, String, u64)> {
+(lang_strategy(), num_strategy(1_000_000), choices(), num_strategy(1000), 0u8..11, threshold_strategy()).prop_map(|(lang, n, ch, m, shape, th)| {
             let mut c = crate::choose::Bytes::new(&ch);
             let r = 1 + n % crate::spell::ordinal_max(&lang);
             let ord = crate::spell::ordinal(&lang, r, &mut c).map(|x| x.0).unwrap_or_else(|| crate::spell::cardinal(&lang, r, &mut c));
@@ -86,6 +76,12 @@ impl Property for C06 {
                 3 => [ord, vec![conj], card].concat(),
                 4 => [card.clone(), vec![sep.clone()], card, vec![sep], ord].concat(),
                 6 => [ord.clone(), vec![sep], ord].concat(),
+                9 | 10 => {
+                    // a fraction that starts with zero words and ends in an ordinal / a cardinal
+                    let z = crate::spell::zero_word(&lang).to_string();
+                    let zeros: Vec<String> = (0..1 + m % 3).map(|_| z.clone()).collect();
+                    if shape == 9 { [card, vec![sep], zeros, ord].concat() } else { [ord, vec![sep], zeros, card].concat() }
+                }
                 7 | 8 => {
                     // a 13..25 digit integer part (10^12 scale words where the language has them) with a decimal part
                     let big: Vec<String> = match lang.as_str() {
@@ -105,7 +101,22 @@ impl Property for C06 {
                 _ => [card, ord].concat(),
             };
             (lang, words.join(" "), th)
-        });
+        }).boxed()
+}
+
+impl Property for C06 {
+    type Input = Case;
+    fn id(&self) -> &'static str {
+        "C06"
+    }
+    fn rule(&self) -> String {
+        "Generated: (language, text, threshold, hint bytes) from the clean and dirty sentence generators, biased so that ordinal forms, the decimal separator and digit words occur next to each other (the shapes that can produce ill-formed texts), plus arbitrary unicode. For the occurrences reported (a) through the tokenizer+annotation pipeline and (b) on an own-token stream with random separation / not-a-number hints, the validity predicate of the statement is asserted: span inside the stream, non-empty, strictly increasing and disjoint, first and last token are word tokens, no flagged token inside, text matches DIGITS (MARK DIGITS)? MARKER? with the language's decimal mark and ordinal-marker set (or 1/DIGITS for Spanish), value bit-equal to the numeric reading of the text, is_ordinal <=> marker present. Non-trivial = distinct cases with >= 2 occurrences or an occurrence that is ordinal, decimal, has leading zeros or >= 16 digits.".into()
+    }
+    fn assumptions(&self) -> Vec<String> {
+        vec!["the per-language ordinal marker sets are those the library documents/emits today (en st nd rd th ths rds; fr er ère ers ères ème èmes; de '.'; nl e; it º ª; es º ª ᵒˢ ᵃˢ .ᵉʳ; pt º ª ᵒˢ ᵃˢ)".into()]
+    }
+    fn strategy(&self, _tier: Tier) -> BoxedStrategy<Case> {
+        let shaped = shaped_texts();
         let from_sentence = text_case(35, 12).prop_map(|tc| (tc.lang.clone(), tc.text(), tc.th_bits));
         let wild = (lang_strategy(), wild_text(), threshold_strategy());
         (prop_oneof![8 => from_sentence, 3 => shaped, 1 => wild], proptest::collection::vec(any::<u8>(), 0..30))
